@@ -29,8 +29,8 @@ def gen_case(run, i):
     if grid == 'auto-src' and src.px < ref.px:
         ps, pr = ref.px, src.px
         sw, sh = rng.randint(6, 16), rng.randint(6, 16)
-        lo = 1 if family != 'dyadic' and pr > 1 else 0
-        sx0, sytop = ref.x0 + 3 * pr + rng.randrange(lo, pr), ref.ytop - 2 * pr - rng.randrange(lo, pr)
+        noisy = rasters.noisy_edges(family, ps, pr) and pr > 1
+        sx0, sytop = ref.x0 + 3 * pr + (rasters.offgrid_offset(rng, family, ps, pr) if noisy else rng.randrange(0, pr)), ref.ytop - 2 * pr - (rasters.offgrid_offset(rng, family, ps, pr) if noisy else rng.randrange(0, pr))
         rw = -(-(sx0 + sw * ps - ref.x0) // pr) + 3
         rh = -(-(ref.ytop - (sytop - sh * ps)) // pr) + 2
         src = rasters.Grid(sx0, sytop, ps, ps, sw, sh, src.unit)
